@@ -1,4 +1,5 @@
 """C06 -- every request the server-side parser delivers has a sanitised effective URI."""
+import base64
 import itertools
 import re
 import socket
@@ -23,11 +24,16 @@ RULE = ('T2/T3: one request head (request line + Host field) through the real Se
 	'section I: ~90 foreign schemes (ws wss ftp gopher file mailto urn h2 https+x ..., mixed case, look-alikes, every scheme the working tree registers) and 11 spellings of http / https x 21 target shapes; '
 	'section J: random paths over the union alphabet (a target that begins with ":" is kept out: URI.parse reads it as an empty scheme, reported); '
 	'section K (the class of the repaired finding D55): ~75 segments that must be percent-encoded in a Location or would be read a second time (% ? # : @ [ ] space, controls, non-ASCII, doubly encoded dots / slashes / letters, sub-delims) x 14 contexts that force a redirect x origin-form and two absolute-form prefixes. '
+	'Sections L-Q (the six classes of DESIGN section 8): L several requests on ONE machine (all ordered pairs of 18 deliverable x 30 requests, 30 pairs a too coarse memo would confuse x 3 ways of cutting + straddling cuts, random sequences of 2-5; a refused request only last) -- each must give what it gives alone on a fresh machine and goes through the model of one head -- and heads of A-K cut per octet / at random offsets; '
+	'M 73 texts whose NFC / NFD / NFKC forms differ or that are compatibility look-alikes of . .. / (U+2024 U+2025 U+FF0E U+FE52 U+FF0F U+2215) percent-encoded in delivered and redirected paths, raw, as IDN host and as Host value (RFC 2047 Q / B word, ISO-8859-1), compared code point for code point; '
+	'N targets of 11 12 75 76 255 256 1023 1024 4095 4096 8190 8191 8192 65535 65536 octets (one segment, escaped, n segments, n dot / dot-dot segments, slash runs, query, absolute-form) and Host values, labels, ports, schemes, userinfo, fragments of those lengths, a 400 / 414 for a well-formed one is a failure (literals over 2200 octets are oracle-only); '
+	'O every key of the field-name table of the working tree in three letter cases next to Host, the name Host in six letter cases; P degenerate targets, request lines, Host values and Host field lists (empty, blanks, separators only, doubled, unbalanced quotes / brackets), those that are no host at all must be refused; '
+	'Q 13 other spellings of the same head (name case, OWS, continuation line, LF, field order, neighbours naming other hosts) must give the outcome of the canonical spelling and the machine must have read the wire value, random paths spelled with few / all / mixed escapes. '
 	'Every 301 is FOLLOWED: a second request GET <Location> HTTP/1.1 (Host: h) goes through the real machine and its outcome is part of the observation. '
 	'Observation = the eight URI slots + class default port + method + version of the delivered request, or status code (+ Location for 301), or escaping exception. '
 	'inet_pton, the IDNA codec, str.lower on non-ASCII text, HeaderElement.parse up to the constructor and \\d/int() on non-ASCII digits are instantiated by the pairs recorded from the run. '
 	'Oracle (independent of the model): path_ok, delivered path = segment-wise decoding of the wire path, a target whose RFC 3986 scheme is not http/https (ASCII case-insensitive) is never delivered and the delivered scheme is the lower-cased wire scheme, no userinfo/fragment, host and port = independent reading of the Host value '
-	'(or configured defaults), 301 only for a non-canonical path, Location = the RFC 3986 5.2.4 form of the slash-collapsed decoded path percent-encoded segment by segment (pchar literal, two upper-case hex digits otherwise: no query, no fragment, nothing read twice) and the followed request is delivered with exactly that decoded path, only 301/400/505 otherwise. non-trivial = distinct (outcome, code, form, Host class)')
+	'(or configured defaults), 301 only for a non-canonical path, Location = the RFC 3986 5.2.4 form of the slash-collapsed decoded path percent-encoded segment by segment (pchar literal, two upper-case hex digits otherwise: no query, no fragment, nothing read twice) and the followed request is delivered with exactly that decoded path, only 301/400/505 otherwise; for a Host value that is one UTF-8 encoded word or ISO-8859-1 octets the delivered host is its lower-cased text code point for code point; sections L-Q add: same outcome as alone on a fresh machine / as the canonical spelling, Host value read = wire value, stated expectations deliver / redirect / refuse. non-trivial = distinct (outcome, code, form, Host class)')
 EXHAUSTIVE = {'quick': True, 'thorough': True}
 TRUSTED = ['harness/tables/servertarget.py (T1: class of a fresh Request URI, HTTP-based scheme keys, accepted-scheme tuple, MAX_URI_LENGTH = inf, RE_HOSTNAME class incl. every non-ASCII code point, HOSTPORT probes, digit-limit probe, LOCATION_VARIANT: three probe requests decide whether the 301 Location is re-parsed (D55 as found) or composed once (repaired)) and the tables of the composed models',
 	'harness/props/C06.py + coq/Corr/C06.v (T2 canonicalisation: text slots compared as UTF-8; T3: callee tables recorded by wrapping socket.inet_pton, URI._unquote_host, URI.compose, Host.parse/__init__ from outside)',
@@ -71,6 +77,7 @@ class Rec(object):
 		self.start_ok = False
 		self.reached = False
 		self.hostraw = None
+		self.msgs = []   # one record per message the machine started (sequences on one machine)
 
 
 REC = Rec()
@@ -140,13 +147,20 @@ def _install():
 	Host.__init__ = init
 
 	class Machine(ServerStateMachine):
+		def on_message_started(self):
+			REC.msgs.append({'start_ok': False, 'reached': False, 'hostraw': None})
+			return super(Machine, self).on_message_started()
+
 		def on_startline_complete(self):
 			super(Machine, self).on_startline_complete()
 			REC.start_ok = True
+			REC.msgs[-1]['start_ok'] = True
 
 		def on_headers_complete(self):
 			REC.hostraw = self.message.headers.getbytes('Host')
 			REC.reached = True
+			REC.msgs[-1]['reached'] = True
+			REC.msgs[-1]['hostraw'] = REC.hostraw
 			super(Machine, self).on_headers_complete()
 
 	_M = (Machine, Host)
@@ -222,9 +236,127 @@ def request_bytes(c):
 	return out + b'\r\n'
 
 
+def wire_bytes(c):
+	"""the octets of one request head: the canonical spelling of (line, hosts) or, for a re-spelled case, the given wire"""
+	return bytes.fromhex(c['raw']) if 'raw' in c else request_bytes(c)
+
+
+def _pieces(data, cuts):
+	if cuts == 'octet':
+		return [data[i:i + 1] for i in range(len(data))]
+	if not cuts:
+		return [data]
+	out, prev = [], 0
+	for k in cuts:
+		out.append(data[prev:k])
+		prev = k
+	out.append(data[prev:])
+	return [p for p in out if p]
+
+
+def _obs_status(exc):
+	o = {'out': 'status', 'code': int(exc.code)}
+	loc = exc.headers.get('Location')
+	if loc is not None:
+		o['loc'] = _u8(loc).hex() if isinstance(loc, str) else bytes(loc).hex()
+	return o
+
+
+def _obs_deliver(req):
+	u = req.uri
+	t = list(u.tuple)
+	if not (t[4] is None or (isinstance(t[4], int) and not isinstance(t[4], bool))) or not all(isinstance(t[i], str) for i in (0, 1, 2, 3, 5, 6, 7)):
+		raise TypeError('unexpected slot types in %r' % (t,))
+	cport = type(u).PORT
+	return {'out': 'deliver', 'uri': [_u8(x).hex() if isinstance(x, str) else x for x in t], 'cport': cport, 'eport': u.port,
+		'method': bytes(req.method).hex(), 'ver': [int(req.protocol.major), int(req.protocol.minor)]}
+
+
+def _sig(o):
+	"""what the application (or the client, for a refusal) sees of one request: the part of an observation two runs are compared on"""
+	return [o.get('out'), o.get('code'), o.get('loc'), o.get('uri'), o.get('eport'), o.get('cport'), o.get('method'), o.get('ver'), o.get('exc'), o.get('n')]
+
+
+def _run_head(c):
+	"""one request head through a fresh machine, in one piece or cut as c['cuts'] says"""
+	from httoop.status import StatusException
+	Machine, Host = _install()
+	REC.reset()
+	sm = Machine(*CFGS[c['cfg']])
+	try:
+		msgs = []
+		for piece in _pieces(wire_bytes(c), c.get('cuts')):
+			msgs.extend(sm.parse(piece))
+	except StatusException as exc:
+		o = _obs_status(exc)
+	except Exception as exc:
+		o = {'out': 'escape', 'exc': type(exc).__name__, 'msg': str(exc)[:120]}
+	else:
+		if len(msgs) != 1:
+			o = {'out': 'incomplete', 'n': len(msgs)}
+		else:
+			o = _obs_deliver(msgs[0][0])
+	o['start_ok'] = REC.start_ok
+	o['reached'] = REC.reached
+	o['hostraw'] = REC.hostraw.hex() if REC.hostraw is not None else None
+	o['tables'] = _tables()
+	if o['out'] == 'status' and o['code'] == 301 and 'loc' in o:
+		o['follow'] = _follow(Machine, bytes.fromhex(o['loc']), c['cfg'])   # after the tables: the second run is not part of the correspondence
+	return o
+
+
+def _canonical_case(c):
+	return {'k': 'head', 'line': c['line'], 'hosts': c['hosts'], 'cfg': c['cfg']}
+
+
+def _run_seq(c):
+	"""several requests through ONE machine (pieces as given: per request, straddling request boundaries, per octet); per request what
+	the machine delivered / answered, and what a FRESH machine gives for the same request alone"""
+	from httoop.status import StatusException
+	Machine, Host = _install()
+	REC.reset()
+	sm = Machine(*CFGS[c['cfg']])
+	delivered, last = [], None
+	for piece in c['pieces']:
+		try:
+			msgs = sm.parse(bytes.fromhex(piece))
+		except StatusException as exc:
+			last = _obs_status(exc)
+			break
+		except Exception as exc:
+			last = {'out': 'escape', 'exc': type(exc).__name__, 'msg': str(exc)[:120]}
+			break
+		delivered.extend(m[0] for m in msgs)
+	recs = list(REC.msgs)
+	tables = _tables()
+	elems = []
+	for i in range(len(c['reqs'])):
+		if i < len(delivered):
+			e = _obs_deliver(delivered[i])
+		elif last is not None and i == len(recs) - 1:
+			e = dict(last)
+		elif last is not None and i < len(recs) - 1:
+			e = {'out': 'lost'}   # completed in the very call that raised for a later request: parse() returns nothing then
+		else:
+			e = {'out': 'unreached'}
+		r = recs[i] if i < len(recs) else {'start_ok': False, 'reached': False, 'hostraw': None}
+		e['start_ok'], e['reached'] = r['start_ok'], r['reached']
+		e['hostraw'] = r['hostraw'].hex() if r['hostraw'] is not None else None
+		elems.append(e)
+	if last is None and len(delivered) < len(c['reqs']):
+		elems[len(delivered)] = dict(elems[len(delivered)], out='incomplete', n=0)
+	for e in elems:
+		if e['out'] == 'status' and e.get('code') == 301 and 'loc' in e:
+			e['follow'] = _follow(Machine, bytes.fromhex(e['loc']), c['cfg'])
+	fresh = []
+	for r in c['reqs']:
+		fc = dict(r, k='head', cfg=c['cfg'])
+		fresh.append(_sig(_run_head(fc)))
+	return {'out': 'seq', 'elems': elems, 'fresh': fresh, 'tables': tables}
+
+
 def observe(c):
 	from httoop.exceptions import InvalidHeader
-	from httoop.status import StatusException
 	Machine, Host = _install()
 	REC.reset()
 	if c['k'] == 'host':
@@ -241,34 +373,14 @@ def observe(c):
 			o = {'out': 'escape', 'exc': type(exc).__name__, 'msg': str(exc)[:120]}
 		o['tables'] = _tables()
 		return o
-	sm = Machine(*CFGS[c['cfg']])
-	try:
-		msgs = sm.parse(request_bytes(c))
-	except StatusException as exc:
-		o = {'out': 'status', 'code': int(exc.code)}
-		loc = exc.headers.get('Location')
-		if loc is not None:
-			o['loc'] = _u8(loc).hex() if isinstance(loc, str) else bytes(loc).hex()
-	except Exception as exc:
-		o = {'out': 'escape', 'exc': type(exc).__name__, 'msg': str(exc)[:120]}
-	else:
-		if len(msgs) != 1:
-			o = {'out': 'incomplete', 'n': len(msgs)}
-		else:
-			req = msgs[0][0]
-			u = req.uri
-			t = list(u.tuple)
-			if not (t[4] is None or (isinstance(t[4], int) and not isinstance(t[4], bool))) or not all(isinstance(t[i], str) for i in (0, 1, 2, 3, 5, 6, 7)):
-				raise TypeError('unexpected slot types in %r' % (t,))
-			cport = type(u).PORT
-			o = {'out': 'deliver', 'uri': [_u8(x).hex() if isinstance(x, str) else x for x in t], 'cport': cport, 'eport': u.port,
-				'method': bytes(req.method).hex(), 'ver': [int(req.protocol.major), int(req.protocol.minor)]}
-	o['start_ok'] = REC.start_ok
-	o['reached'] = REC.reached
-	o['hostraw'] = REC.hostraw.hex() if REC.hostraw is not None else None
-	o['tables'] = _tables()
-	if o['out'] == 'status' and o['code'] == 301 and 'loc' in o:
-		o['follow'] = _follow(Machine, bytes.fromhex(o['loc']), c['cfg'])   # after the tables: the second run is not part of the correspondence
+	if c['k'] == 'seq':
+		return _run_seq(c)
+	canon = None
+	if 'raw' in c or 'cuts' in c:
+		canon = _sig(_run_head(_canonical_case(c)))   # the same request written the canonical way, in one piece, on its own fresh machine
+	o = _run_head(c)
+	if canon is not None:
+		o['canon'] = canon
 	return o
 
 
@@ -327,9 +439,30 @@ def _coq_tables(t):
 FORCE_BAD = 'CHost {| t_ip4 := []; t_ip6 := []; t_idd := []; t_ide := []; t_lower := []; t_elem := []; t_udig := [] |} [] (Some ([], Some 1%Z))'
 
 
+COQ_MAX_OCTETS = 2200   # request line + Host value + Location / path slot of one literal (hex doubles it: about 4400 characters); longer cases are oracle-only
+
+
 def coq_case(c, o):
 	if 'harness_exception' in o:
 		return FORCE_BAD
+	if c.get('nocoq'):
+		return None   # header fields other than Host on the wire: Headers.parse and the body hooks are outside this model
+	if c['k'] == 'seq':
+		# every request of a sequence on one machine against the model of ONE request head (the model has no state to carry over)
+		out = []
+		for r, e in zip(c['reqs'], o['elems']):
+			if e['out'] in ('lost', 'unreached'):
+				continue
+			t = coq_case(dict(r, k='head', cfg=c['cfg']), dict(e, tables=o['tables']))
+			if t is not None:
+				out.append(t)
+		return out
+	if c['k'] == 'head' and 'sec' in c:   # sections L-Q only: everything older keeps going through the model whatever its size
+		size = len(c['line']) // 2 + len(o.get('hostraw') or '') // 2 + len(o.get('loc') or '') // 2
+		if o.get('out') == 'deliver':
+			size += sum(len(x) // 2 for x in o['uri'] if isinstance(x, str))
+		if size > COQ_MAX_OCTETS:
+			return None
 	T = _coq_tables(o['tables'])
 	if c['k'] == 'host':
 		if o['out'] == 'ok':
@@ -421,6 +554,124 @@ REDIRECT_SEGS = [b'%25', b'%2561', b'%2541%2542', b'%252e', b'%252E%252e', b'%25
 	b'%7e', b'~', b'a%3Ab', b'%3a', b'%3A%3a', b'a:b', b'a%40b', b'%40', b'a@b', b'%5B%5D', b'%5b', b'%01', b'%00', b'%0f', b'%0A', b'%0d%0a', b'%10', b'%1f', b'%7f', b'a+b', b'a%2Bb', b'a%26b%3Dc',
 	b'%22%3C%3E', b'%5c', b'%5C..', b'%5E%60%7B%7C%7D', b'a;p=1', b'%3B', b"!$&'()*+,;=", b'%21%24%26%27%28%29%2A%2C', b'a', b'A%41', b'%61', b'.a', b'a.', b'...', b'..a', b'%2e%2e%2e', b'%2e.a', b'-._~', b'%2D%2E%5F%7E']
 REDIRECT_CTX = [b'/x/../@', b'/./@', b'//@', b'/@/.', b'/@/..', b'/@//', b'/@/./y', b'/x/@/../@', b'/%2e/@', b'/%2E%2e/@', b'/a/@//b', b'/../@', b'/x/..//@/', b'/@/x/%2e%2E/']
+
+
+# ---------------------------------------------------------------- sections L-Q: the six classes of DESIGN section 8 (third wave)
+def wire(line, hosts, cfg, sec, raw=None, what=None, cuts=None, expect=None, nocoq=False, lenient=False):
+	"""a request head of sections L-Q: 'raw' = the octets on the wire when they are not the canonical spelling of (line, hosts); 'cuts' = how the
+	octets are cut into parse() calls; 'expect' = deliver / redirect / refuse where the generator knows it independently of the code"""
+	c = head(line, hosts, cfg)
+	c['sec'] = sec
+	if raw is not None:
+		c['raw'] = bytes(raw).hex()
+	if what is not None:
+		c['what'] = what
+	if cuts is not None:
+		c['cuts'] = cuts
+	if expect is not None:
+		c['expect'] = expect
+	if nocoq:
+		c['nocoq'] = True
+	if lenient:
+		c['lenient'] = True
+	return c
+
+
+# L. requests that are delivered whatever went before (line, Host values) -- and requests that are refused (only ever LAST in a sequence: a machine that
+#    raised is not used again)
+SEQ_GOOD = [
+	(b'GET /a HTTP/1.1', [b'h:81']), (b'GET /a HTTP/1.1', [b'h:82']), (b'GET /b HTTP/1.0', []), (b'GET /A HTTP/1.1', [b'H']), (b'GET /%61 HTTP/1.1', [b'h']),
+	(b'GET /a?x=1 HTTP/1.0', [b'example.com']), (b'GET /a/ HTTP/1.1', [b'EXAMPLE.com:8080']), (b'GET https://x:444/p?q HTTP/1.1', [b'y:82']),
+	(b'GET HTTPS://x/p HTTP/1.1', [b'x']), (b'GET http://x:81/a HTTP/1.0', []), (b'OPTIONS * HTTP/1.1', [b'h']), (b'OPTIONS * HTTP/1.0', []),
+	(b'CONNECT x:443 HTTP/1.1', [b'x:443']), (b'CONNECT y:8443 HTTP/1.0', []), (b'HEAD /a%2fb/%C3%A4 HTTP/1.1', [b'[::1]:8443']), (b'GET / HTTP/1.1', [b'1.2.3.4']),
+	(b'GET /e%CC%81 HTTP/1.1', [b'=?utf-8?q?e=CC=81.example?=:81']), (b'GET /%C3%A9 HTTP/1.1', [b'=?utf-8?q?=C3=A9.example?=']),
+]
+SEQ_BAD = [
+	(b'GET /./a HTTP/1.1', [b'h']), (b'GET /a/../b HTTP/1.0', []), (b'GET /a//b HTTP/1.1', [b'h:81']), (b'GET ftp://h/ HTTP/1.1', [b'h']), (b'GET /a HTTP/1.1', []),
+	(b'GET http://u@h/ HTTP/1.1', [b'h']), (b'GET /a#f HTTP/1.1', [b'h']), (b'GET /a HTTP/1.1', [b'h:65536']), (b'GET /a HTTP/2.0', [b'h']), (b'GET /x/../%2561 HTTP/1.1', [b'h']),
+	(b'GET /a HTTP/1.1', [b'a b']), (b'GET a HTTP/1.1', [b'h']),
+]
+# pairs that a memo keyed too coarsely (case folded, query dropped, escapes decoded, port dropped) would confuse
+SEQ_RELATED = [
+	((b'GET /a/B HTTP/1.1', [b'h']), (b'GET /a/b HTTP/1.1', [b'h'])), ((b'GET /a?x=1 HTTP/1.1', [b'h']), (b'GET /a?x=2 HTTP/1.1', [b'h'])), ((b'GET /a HTTP/1.1', [b'h']), (b'GET /a?x HTTP/1.1', [b'h'])),
+	((b'GET /a%2fb HTTP/1.1', [b'h']), (b'GET /a/b HTTP/1.1', [b'h'])), ((b'GET /a%2Fb HTTP/1.1', [b'h']), (b'GET /a%2fb HTTP/1.1', [b'h'])), ((b'GET /%2e HTTP/1.1', [b'h']), (b'GET /%252e HTTP/1.1', [b'h'])),
+	((b'GET /a HTTP/1.1', [b'h']), (b'GET /a/ HTTP/1.1', [b'h'])), ((b'GET /a HTTP/1.1', [b'h']), (b'GET /a HTTP/1.0', [b'h'])), ((b'GET /a HTTP/1.1', [b'h']), (b'GET /a HTTP/1.0', [])),
+	((b'GET /a HTTP/1.1', [b'h']), (b'GET /a HTTP/1.1', [b'h:8080'])), ((b'GET /a HTTP/1.1', [b'h:80']), (b'GET /a HTTP/1.1', [b'h'])), ((b'GET /a HTTP/1.1', [b'h:80']), (b'GET https://x/a HTTP/1.1', [b'h'])),
+	((b'GET /a HTTP/1.1', [b'h:443']), (b'GET https://x/a HTTP/1.1', [b'h:443'])), ((b'GET /a HTTP/1.1', [b'H.example']), (b'GET /a HTTP/1.1', [b'h.example.'])), ((b'GET /a HTTP/1.1', [b'[::1]']), (b'GET /a HTTP/1.1', [b'[::1]:8443'])),
+	((b'GET /a HTTP/1.1', [b'[::1]']), (b'GET /a HTTP/1.1', [b'[0:0::1]'])), ((b'GET http://x/a HTTP/1.1', [b'h']), (b'GET https://x/a HTTP/1.1', [b'h'])), ((b'GET http://x/a HTTP/1.1', [b'h']), (b'GET HTTP://X/a HTTP/1.1', [b'g'])),
+	((b'GET http://x:81/a HTTP/1.0', []), (b'GET http://x:82/a HTTP/1.0', [])), ((b'GET https://x/a HTTP/1.0', []), (b'GET /a HTTP/1.0', [])), ((b'GET /a HTTP/1.0', []), (b'GET https://x/a HTTP/1.0', [])),
+	((b'CONNECT x:443 HTTP/1.1', [b'x:443']), (b'GET x:443 HTTP/1.1', [b'x:443'])), ((b'CONNECT x:443 HTTP/1.1', [b'x:443']), (b'CONNECT x:444 HTTP/1.1', [b'x:443'])), ((b'OPTIONS * HTTP/1.1', [b'h']), (b'GET * HTTP/1.1', [b'h'])),
+	((b'GET /e%CC%81 HTTP/1.1', [b'h']), (b'GET /%C3%A9 HTTP/1.1', [b'h'])), ((b'GET /%E2%84%AB HTTP/1.1', [b'h']), (b'GET /%C3%85 HTTP/1.1', [b'h'])), ((b'GET /a HTTP/1.1', [b'=?utf-8?q?=E2=84=A6?=']), (b'GET /a HTTP/1.1', [b'=?utf-8?q?=CE=A9?='])),
+	((b'GET /a HTTP/1.1', [b'h', b'h']), (b'GET /a HTTP/1.1', [b'h'])), ((b'GET /a HTTP/1.1', [b'h:0']), (b'GET /a HTTP/1.1', [b'h'])), ((b'GET /a HTTP/1.1', [b'h']), (b'GET /a HTTP/1.1', [b'h:0'])),
+]
+
+# M. text whose normalisation form or compatibility mapping differs from itself, and look-alikes of the path metacharacters
+UNI_TEXTS = ['e\u0301', '\u00e9', 'A\u030a', '\u212b', '\u00c5', '\u2126', '\u03a9', '\u212a', '\u1100\u1161', '\uac00', '\u1112\u1161\u11ab', '\ud55c', '\uf900', '\u8c48', '\U0002f800', '\u4e3d',
+	'\U0001f600', '\U00010400', '\U0001d400', '\ufb01', '\uff21', '\uff41', '\u00b5', '\u03bc', '\u1e9b\u0323', 'a\u0323\u0301', 'a\u0301\u0323', '\u0344', '\u0340', '\u0958', '\u2000', '\u2002', '\u00a0', '\u2024', '\u2024\u2024',
+	'\u2025', '\uff0e', '\uff0e\uff0e', '.\uff0e', '\ufe52', '\uff0f', '\u2215', 'a\uff0fb', '\u037e', '\u1fef', '\u200d', '\ufeff', '\u0130', '\u0131', '\u00df', '\u1e9e', '\u017f', '\ufdfa', '\U000e0041', '\u0041\u0308\u0304', '\u01d5', 'x\u0338', '\u226e',
+	'\u0f73', '\u0f71\u0f72', '\u09cb', '\u09c7\u09be', '\u1e0b\u0323', '\u1e0d\u0307', '\u3099', '\u304b\u3099', '\u304c', '\uff76\uff9e', '\u2460', '\u00bd', '\u2163', '\ufe30', '\u2e2f']
+UNI_CANON_CTX = [b'/@', b'/x/@/y', b'/@/', b'/@/@']
+UNI_REDIRECT_CTX = [b'/x/../@', b'/./@', b'/x//@', b'/@/..', b'/@/./y']
+
+# N. lengths
+LIMITS = [11, 12, 75, 76, 255, 256, 1023, 1024, 4095, 4096, 8190, 8191, 8192]
+LIMITS_BIG = [65535, 65536]
+
+# P. degenerate request-targets (none begins with ':': such a target is read by URI.parse as an empty scheme and delivered -- reported, see section J)
+DEGENERATE_TARGETS = [b'/', b'//', b'///', b'?', b'??', b'#', b'##', b'?#', b'#?', b'/?', b'/??', b'/?#', b'/#', b'/#?', b'/?&', b'/?&&', b'/?=', b'/?==', b'/?&=&', b'/?a=b&&c==d', b'/a??b', b'/?/..', b'/?//', b'/?/./',
+	b'/;', b'/;;', b'/a;;b', b'/,', b'/,,', b'/=', b'/&&', b'/@', b'/@@', b'/[', b'/]', b'/[]', b'/][', b'/"', b'/""', b'/"a', b'/a"', b"/'", b"/''", b'/(', b'/)', b'/()', b'/)(', b'/<', b'/>', b'/<>', b'/{', b'/}', b'/{}', b'/|', b'/^', b'/`',
+	b'/%', b'/%%', b'/%%%', b'/%%2e', b'/%2e%', b'/.%', b'/%.', b'/%2', b'/%2%65', b'/%2%2e', b'/%/..', b'/%25%', b'/%G0', b'/%0', b'/%0G', b'/%2e%2', b'/%2e%2/x', b'/.%2', b'/%2./x',
+	b'@', b'@@', b'[', b']', b'[]', b'"', b'""', b'&', b';', b',', b'=', b'%', b'%%', b'.', b'..', b'...', b'./', b'../', b'/./', b'/../', b'/.../', b'/. ', b'/./.', b'/././', b'/.//', b'//.', b'/..//', b'/..../',
+	b'http://', b'http:///', b'http:////', b'http://?', b'http://#', b'http://@', b'http://@/', b'http://:', b'http://:/', b'http://:@', b'http://@:', b'http://:@/', b'http://[', b'http://]', b'http://[]', b'http://[]/', b'http://[/',
+	b'http://[::1/', b'http://::1]/', b'http://[[::1]]/', b'http://h::80/', b'http://h:80:80/', b'http://h:/', b'http://u@@h/', b'http://h@/', b'http://h//', b'http://h/?', b'http://h?', b'http://h#', b'http://h/#', b'http://h?#',
+	b'http://.', b'http://./', b'http://../', b'http://h./', b'http://.h/', b'http://h..h/', b'http://%', b'http://%/', b'http://%2e/', b'http://%2e%2e/x', b'http://-/', b'http://_/', b'http://*/', b'http://h/*',
+	b'http:', b'http:/', b'https:', b'http:?', b'http:#', b'http::', b'http::/', b'http:://h/', b'http:/.', b'http:/..', b'http:.', b'http:..', b'http:*', b'https://', b'HTTP://', b'http://http://', b'http://http://h/']
+DEGENERATE_LINES_LENIENT = [b'GET / HTTP/1.1 ', b'GET  /  HTTP/1.1', b'GET\t/\tHTTP/1.1', b' GET / HTTP/1.1', b'GET /  HTTP/1.1\t']   # the three parts are there: blanks are split on as bytes.split does
+DEGENERATE_LINES = [b'', b' ', b'\t', b'  ', b'GET', b'GET ', b' GET', b'GET  ', b'GET /', b'GET / ', b'GET  /', b'GET  HTTP/1.1', b' / HTTP/1.1', b'/ HTTP/1.1', b'GET / HTTP/1.1 x', b'GET / / HTTP/1.1',
+	b'GET / HTTP/', b'GET / HTTP', b'GET / /1.1', b'GET / HTTP/1.', b'GET / HTTP/.1', b'GET / HTTP/.', b'GET / HTTP/1..1', b'GET / HTTP//1.1', b'GET "/" HTTP/1.1', b'"GET" / HTTP/1.1', b'GET / "HTTP/1.1"', b'GET /\x00 HTTP/1.1', b'\x00']
+# Host values that are no host whatever else they are: blanks, separators, doubled separators, unbalanced quotes and brackets ('refuse'), and degenerate spellings that the
+# generic header syntax allows to mean a host (no expectation beyond the property itself)
+DEGENERATE_HOSTS_REFUSE = [b'', b' ', b'\t', b'  ', b' \t ', b':', b':::', b':80', b'::80', b'h::80', b'h:80:', b'h::', b'h:', b'h:80:80', b'h: 80', b'h :80', b'h:8 0', b'h h', b'[', b']', b'][', b'[]', b'[]:80', b'[:]', b'[::1', b'::1]', b'[::1]]', b'[[::1]',
+	b'[[::1]]', b'[::1]:', b'[::1]::80', b'[::1]80', b'h:-1', b'h:+1', b'h:0x50', b'h:80a', b'h:a', b'/', b'h/', b'//h', b'http://h', b'h/x', b'@', b'@h', b'h@', b'u@h', b'\\', b'h\\', b'(', b')', b'h(', b'<h>', b'{h}', b'^',
+	b'"', b'"h', b'h"', b'"h:80', b'h:80"', b'h;a="', b'h;a="b', b'h;a=b"']
+DEGENERATE_HOSTS_OTHER = [b'::', b',', b',,', b', ', b' ,', b';', b';;', b'; ', b'=', b'""', b'"h":80', b"'h'", b'h;', b'h;;', b'h;a', b'h;a=', b'h;=b', b'h,', b',h', b'h,,h', b'h,h', b'h, h', b'h ,h', b'h:80,h:81',
+	b'h:80, h:81', b'[::]', b'[::]:80', b'.', b'..', b'.h', b'h..h', b'-', b'_', b'()', b'h(c)', b'(c)h', b'(c)', b'%', b'%%', b'%68', b'h%', b'*', b'?', b'#', b'h?', b'h#f', b'h?q', b'=?', b'=??=', b'=?utf-8?q??=', b'=?utf-8?q?', b'?=', b'=?utf-8?x?h?=', b'=?utf-8?b?!?=', b'=?utf-8?q?=?=']
+
+# Q. other spellings of one request head (line, ONE Host value hv): what another sender would write for the same data
+RESPELL = [
+	('field name in lower case', lambda l, hv: l + b'\r\nhost: ' + hv + b'\r\n\r\n'),
+	('field name in upper case', lambda l, hv: l + b'\r\nHOST: ' + hv + b'\r\n\r\n'),
+	('field name in mixed case', lambda l, hv: l + b'\r\nhOsT: ' + hv + b'\r\n\r\n'),
+	('no white space after the colon', lambda l, hv: l + b'\r\nHost:' + hv + b'\r\n\r\n'),
+	('HTAB after the colon', lambda l, hv: l + b'\r\nHost:\t' + hv + b'\r\n\r\n'),
+	('runs of SP and HTAB around the value', lambda l, hv: l + b'\r\nHost: \t  ' + hv + b' \t \r\n\r\n'),
+	('value on a continuation line (SP)', lambda l, hv: l + b'\r\nHost:\r\n ' + hv + b'\r\n\r\n'),
+	('value on a continuation line (HTAB), trailing SP', lambda l, hv: l + b'\r\nHost: \r\n\t' + hv + b' \r\n\r\n'),
+	('LF line ends', lambda l, hv: l + b'\nHost: ' + hv + b'\n\n'),
+	('Host after three other fields', lambda l, hv: l + b'\r\nAccept: */*\r\nUser-Agent: x/1\r\nConnection: keep-alive\r\nHost: ' + hv + b'\r\n\r\n'),
+	('Host before three other fields', lambda l, hv: l + b'\r\nHost: ' + hv + b'\r\nAccept: */*\r\nUser-Agent: x/1\r\nConnection: keep-alive\r\n\r\n'),
+	('Host between fields that name other hosts', lambda l, hv: l + b'\r\nX-Forwarded-Host: evil.example:99\r\nForwarded: host=evil.example\r\nhost:' + hv + b'\r\nReferer: http://evil.example:99/x\r\nOrigin: http://evil.example:99\r\n\r\n'),
+	('Content-Length: 0 after Host', lambda l, hv: l + b'\r\nHost: ' + hv + b'\r\nContent-Length: 0\r\n\r\n'),
+]
+RESPELL_TARGETS = [b'/', b'/a/b?q=1', b'*', b'http://x:81/p', b'HTTPS://X/p', b'/a/../b', b'/%2e%2e/a', b'//a', b'/a%2fb/%C3%A4', b'/e%CC%81', b'ftp://h/', b'http://u@h/', b'/a#f', b'a', b'/x/../%2561', b'http://h', b'/a//', b'/%', b'/?', b'/a:b']
+RESPELL_HOSTS = [b'h:81', b'EXAMPLE.com', b'[::1]:8443', b'1.2.3.4', b'h:0', b'h:65536', b'a b', b'h\xe4', b'=?utf-8?q?e=CC=81?=', b'h;a=b', b'h.']
+
+
+def _registered_headers():
+	"""every field name the working tree registers (a generator input only)"""
+	try:
+		from httoop.header import HEADER
+		return sorted(k.encode('ascii') if isinstance(k, str) else bytes(k) for k in HEADER.keys())
+	except Exception:
+		return []
+
+
+def _pct(text, upper=True):
+	return b''.join((b'%%%02X' if upper else b'%%%02x') % b for b in text.encode('utf-8'))
+
+
+def _qword(text):
+	return b'=?utf-8?q?' + b''.join(b'=%02X' % b for b in text.encode('utf-8')) + b'?='
 
 
 def _registered_schemes():
@@ -578,6 +829,214 @@ def gen_cases(rng, tier):
 			add(_rot([b'GET', b'POST', b'HEAD'], i), _rot([b'http://h', b'HTTPS://H:8443', b'http://[::1]:81'], i) + t)
 			if big:
 				add(b'GET', t + b'?q=%2561&r=%3F', b'HTTP/1.0', [], cfg=_rot([0, 1, 2], i))
+	# ================================================================ sections L-Q: the six classes of DESIGN section 8 (after K, so that A-K are unchanged per seed)
+	older = [c for c in cases if c['k'] == 'head']
+
+	def seq(reqs, mode, cfg):
+		"""reqs = [(line, hosts)]: one machine gets all of them. mode 'req': one parse() call per request; 'octet': one call per octet; 'straddle': Content-Length: 0
+		on every request (a second request in the buffer of a request without it is answered 411, which is not this property's matter) and cuts that
+		do not fall on request boundaries; 'one-call': the same in a single call"""
+		rs = []
+		for line, hosts in reqs:
+			r = {'line': bytes(line).hex(), 'hosts': [bytes(h).hex() for h in hosts]}
+			if mode in ('straddle', 'one-call'):
+				r['raw'] = (line + b'\r\n' + b''.join(b'Host: ' + h + b'\r\n' for h in hosts) + b'Content-Length: 0\r\n\r\n').hex()
+			rs.append(r)
+		wires = [wire_bytes(r) for r in rs]
+		if mode == 'req':
+			pieces = wires
+		elif mode == 'octet':
+			pieces = [w[k:k + 1] for w in wires for k in range(len(w))]
+		elif mode == 'one-call':
+			pieces = [b''.join(wires)]
+		else:
+			data = b''.join(wires)
+			bounds, pos = set(), 0
+			for w in wires:
+				pos += len(w)
+				bounds.add(pos)
+			cuts = sorted(set(rng.randrange(1, len(data)) for _ in range(len(wires) + 1)) - bounds)
+			pieces = _pieces(data, cuts)
+		cases.append({'k': 'seq', 'sec': 'L', 'mode': mode, 'reqs': rs, 'cfg': cfg, 'pieces': [bytes(x).hex() for x in pieces]})
+
+	# L. statefulness: a machine that has delivered requests delivers the next one as a fresh machine would (class 1)
+	n = 0
+	for a in SEQ_GOOD:
+		for b in SEQ_GOOD + SEQ_BAD:
+			n += 1
+			seq([a, b], 'req', _rot([0, 0, 1, 2], n))
+	for a, b in SEQ_RELATED:
+		for x, y in ((a, b), (b, a)):
+			for mode in ('req', 'one-call', 'octet'):
+				n += 1
+				seq([x, y], mode, _rot([0, 1, 2], n))
+			seq([x, y, x], 'straddle', 0)
+	seq_pool = SEQ_GOOD + [q for pair in SEQ_RELATED for q in pair]
+	for _ in range(1500 if big else 220):
+		k = rng.randint(2, 5)
+		reqs = [rng.choice(seq_pool) for _ in range(k)]
+		if rng.random() < 0.4:
+			reqs[-1] = rng.choice(SEQ_BAD)
+		seq(reqs, rng.choice(['req', 'straddle', 'straddle', 'one-call', 'octet']), rng.randrange(3))
+	# ... and a request head that arrives in pieces is the request head (every older section above is a source of heads)
+	for _ in range(3000 if big else 450):
+		c = rng.choice(older)
+		data = request_bytes(c)
+		if len(data) > 600:
+			continue
+		r = rng.random()
+		cuts = 'octet' if r < 0.35 else sorted(set(rng.randrange(1, len(data)) for _ in range(rng.randint(1, 3))))
+		d = dict(c, sec='L', cuts=cuts, what='the head cut into parse() calls at %s' % (cuts,))
+		cases.append(d)
+
+	# M. Unicode normalisation forms, compatibility characters, look-alikes of '.' and '/': code point for code point in the path, the Location and the host (class 2)
+	n = 0
+	for t in UNI_TEXTS:
+		enc = _pct(t, upper=bool(n % 3))
+		for ctx in UNI_CANON_CTX:
+			n += 1
+			cases.append(wire(b'GET ' + _rot([b'', b'', b'http://h', b'HTTPS://H:8443'], n) + ctx.replace(b'@', enc) + b' ' + _rot([b'HTTP/1.1', b'HTTP/1.1', b'HTTP/1.0'], n), [_rot(HOST_GOOD, n)], _rot([0, 1, 2], n), 'M',
+				expect='deliver', what='path text %s' % _cps(t)))
+		for ctx in UNI_REDIRECT_CTX:
+			n += 1
+			cases.append(wire(b'GET ' + ctx.replace(b'@', enc) + b' HTTP/1.1', [b'h'], 0, 'M', expect='redirect', what='path text %s' % _cps(t)))
+			cases.append(wire(_rot([b'GET', b'POST', b'HEAD'], n) + b' ' + _rot([b'http://h', b'HTTPS://H:8443', b'http://[::1]:81'], n) + ctx.replace(b'@', enc) + b' HTTP/1.1', [_rot(HOST_GOOD, n)], _rot([0, 1, 2], n), 'M',
+				expect='redirect', what='path text %s' % _cps(t)))
+		cases.append(wire(b'GET /' + t.encode('utf-8') + b' HTTP/1.1', [b'h'], 0, 'M', what='raw UTF-8 %s in the target' % _cps(t)))   # not printable ASCII: 400, or delivered as it stands
+		cases.append(wire(b'GET http://' + enc + b'.example/' + enc + b' HTTP/1.1', [b'h'], 0, 'M', what='IDN host %s in the target' % _cps(t)))
+		# the same text as the host of the Host field (one RFC 2047 word; ISO-8859-1 octets where the text fits)
+		hvs = [_qword(t + '.example'), _qword(t) + b':8081', b'=?UTF-8?B?' + base64.b64encode((t + '.x').encode('utf-8')) + b'?=']
+		try:
+			hvs.append(('x' + t).encode('latin-1') + b':81')
+		except UnicodeEncodeError:
+			pass
+		for hv in hvs:
+			n += 1
+			cases.append(wire(_rot([b'GET / HTTP/1.1', b'GET http://x:81/p HTTP/1.1', b'GET /a HTTP/1.0', b'OPTIONS * HTTP/1.1'], n), [hv], _rot([0, 1, 2], n), 'M', what='Host text %s' % _cps(t)))
+
+	# N. lengths at and around the usual limits, in every position of the head that has a length (class 3)
+	def long_case(target, hosts, expect, what, method=b'GET', ver=b'HTTP/1.1', cfg=0):
+		cases.append(wire(method + b' ' + target + b' ' + ver, hosts, cfg, 'N', expect=expect, what=what))
+
+	n = 0
+	for L_ in LIMITS + LIMITS_BIG:
+		n += 1
+		hv = [_rot(HOST_GOOD, n)]
+		long_case(b'/' + b'a' * (L_ - 1), hv, 'deliver', 'one segment, target of %d octets' % L_)
+		long_case(b'/' + b'%61' * ((L_ - 1) // 3) + b'b' * ((L_ - 1) % 3), hv, 'deliver', 'escaped segment, target of %d octets' % L_)
+		long_case(b'/' + b'%C3%A9' * ((L_ - 1) // 6) + b'b' * ((L_ - 1) % 6), hv, 'deliver', 'escaped non-ASCII segment, target of %d octets' % L_)
+		long_case(b'/?' + b'q' * (L_ - 2), hv, 'deliver', 'query, target of %d octets' % L_)
+		long_case(b'/a?' + b'k=v&' * ((L_ - 3) // 4) + b'x' * ((L_ - 3) % 4), hv, 'deliver', 'query of pairs, target of %d octets' % L_, ver=b'HTTP/1.0')
+		long_case(b'http://h/' + b'a' * (L_ - 9), hv, 'deliver', 'absolute-form, target of %d octets' % L_)
+		long_case(b'/./' + b'a' * (L_ - 3), hv, 'redirect', 'dot segment before a long segment, target of %d octets' % L_)
+		long_case(b'/' + b'a' * (L_ - 6) + b'/../b', hv, 'redirect', 'dot-dot after a long segment, target of %d octets' % L_)
+		long_case(b'/x//' + b'a' * (L_ - 4), hv, 'redirect', 'empty segment before a long segment, target of %d octets' % L_)
+		long_case(b'/' + b'a' * (L_ - 2) + b'/', hv, 'deliver', 'long segment and trailing slash, target of %d octets' % L_)
+		long_case(b'/' + b'a' * (L_ - 5) + b'/%2e', hv, 'redirect', 'escaped dot after a long segment, target of %d octets' % L_, cfg=1)
+		if L_ <= 8192:
+			long_case(b'/a' * (L_ // 2), hv, 'deliver', '%d segments' % (L_ // 2))
+			long_case(b'/a' * (L_ // 2) + b'/..' * (L_ // 2), hv, 'redirect', '%d segments and as many dot-dot segments' % (L_ // 2))
+			long_case(b'/a' * (L_ // 2) + b'/.' * (L_ // 2) + b'/b', hv, 'redirect', '%d segments and as many dot segments' % (L_ // 2))
+			long_case(b'/x' + b'/' * (L_ - 3) + b'y', hv, 'redirect', 'a run of %d slashes' % (L_ - 3))
+			long_case(b'/a' * (L_ // 2 - 1) + b'//b', hv, 'redirect', 'an empty segment after %d segments' % (L_ // 2 - 1))
+		if L_ <= 4096:
+			long_case(b'/', [b'a' * L_], 'deliver', 'Host value of %d octets' % L_)
+			long_case(b'/', [b'a' * (L_ - 5) + b':8080'], 'deliver', 'Host value with port, %d octets' % L_)
+			long_case(b'/', [(b'a' * 63 + b'.') * (L_ // 64) + (b'b' * (L_ % 64) or b'b')], 'deliver', 'Host of labels of 63 octets, %d octets' % L_)
+			long_case(b'h' * L_ + b'://x/', [b'h'], 'refuse', 'scheme of %d octets' % L_)   # a foreign scheme: never delivered
+			long_case(b'http://' + b'x' * L_ + b'/', [b'h'], None, 'target host label of %d octets' % L_)
+			long_case(b'http://u' + b'u' * L_ + b'@h/', [b'h'], 'refuse', 'user information of %d octets' % L_)
+			long_case(b'/a#' + b'f' * L_, [b'h'], 'refuse', 'fragment of %d octets' % L_)
+	for k in (1, 2, 4, 5, 6, 10, 11, 12, 19, 20, 21, 75, 76, 255, 256, 4299, 4300):
+		long_case(b'/', [b'h:' + b'0' * (k - 2) + b'80' if k > 2 else b'h:' + b'8' * k], 'deliver', 'Host port of %d digits' % k)
+		long_case(b'http://x:' + b'0' * k + b'81/p', [b'h'], None, 'target port with %d leading zeros' % k)
+	for k in (62, 63, 64, 65, 252, 253, 254, 255, 256):
+		long_case(b'http://' + b'x' * k + b'/', [b'h'], None, 'target host label of %d octets' % k)
+		long_case(b'http://' + (b'x' * 63 + b'.') * (k // 64) + b'y' * (k % 64) + b'/p', [b'h'], None, 'target host of %d octets in labels of 63' % k)
+		long_case(b'/', [b'x' * k], 'deliver', 'Host label of %d octets' % k)
+
+	# O. registries: the field-name table (read from the tree now) in three letter cases next to Host -- whatever else a field says, host and port are those of Host --
+	#    and the Host field under every spelling of its name (class 4; the scheme registry is section I)
+	n = 0
+	for name in _registered_headers():
+		if name.lower() in (b'host', b'content-length', b'transfer-encoding', b'content-encoding'):
+			continue   # not 'another field': Host itself; the framing and coding fields decide about a body (411 / 501), which is not this property's matter
+		for spelled in (name, name.upper(), name.lower()):
+			n += 1
+			line, hv = _rot([b'GET /a HTTP/1.1', b'GET http://x:81/p HTTP/1.1', b'GET /a HTTP/1.0', b'OPTIONS * HTTP/1.1'], n), _rot(HOST_GOOD, n)
+			other = spelled + b': evil.example:99\r\n'
+			raw = line + b'\r\n' + (other + b'Host: ' + hv + b'\r\n' if n % 2 else b'Host: ' + hv + b'\r\n' + other) + b'\r\n'
+			cases.append(wire(line, [hv], _rot([0, 1, 2], n), 'O', raw=raw, nocoq=True, lenient=True, what='field %s next to Host' % spelled.decode('ascii')))
+	for spelled in (b'host', b'HOST', b'Host', b'hOST', b'HoSt', b'hosT'):
+		for hv in HOST_GOOD + [b'h:0', b'a b', b'h:65536', b'']:
+			for line in (b'GET /a HTTP/1.1', b'GET https://x:444/p HTTP/1.1', b'CONNECT x:443 HTTP/1.1', b'GET /a HTTP/1.0'):
+				n += 1
+				cases.append(wire(line, [hv], _rot([0, 1, 2], n), 'O', raw=line + b'\r\n' + spelled + b': ' + hv + b'\r\n\r\n', what='field name spelled %s' % spelled.decode('ascii')))
+
+	# P. degenerate values in every position: target, request line, Host value, several Host fields (class 5)
+	n = 0
+	for t in DEGENERATE_TARGETS:
+		assert not t.startswith(b':')
+		for (m_, ver, hosts) in ((b'GET', b'HTTP/1.1', [b'h']), (b'GET', b'HTTP/1.0', []), (b'CONNECT', b'HTTP/1.1', [b'h:1']), (b'OPTIONS', b'HTTP/1.1', [b'H:8080'])):
+			n += 1
+			cases.append(wire(m_ + b' ' + t + b' ' + ver, hosts, _rot([0, 0, 1, 2], n), 'P', what='degenerate target %r' % (t,)))
+	for line in DEGENERATE_LINES:
+		for hosts in ([b'h'], []):
+			cases.append(wire(line, hosts, 0, 'P', expect='refuse', what='degenerate request line %r' % (line,)))
+	for line in DEGENERATE_LINES_LENIENT:
+		cases.append(wire(line, [b'h:81'], 0, 'P', what='request line with other blanks %r' % (line,)))
+	for hv in DEGENERATE_HOSTS_REFUSE + DEGENERATE_HOSTS_OTHER:
+		exp = 'refuse' if hv in DEGENERATE_HOSTS_REFUSE else None
+		for line in (b'GET / HTTP/1.1', b'GET http://x:81/p HTTP/1.1', b'CONNECT x:443 HTTP/1.1', b'OPTIONS * HTTP/1.1', b'GET /a HTTP/1.0'):
+			n += 1
+			cases.append(wire(line, [hv], _rot([0, 0, 1, 2], n), 'P', expect=exp, what='degenerate Host value %r' % (hv,)))
+	for hosts in ([b'', b'h'], [b'h', b''], [b' ', b'h'], [b'', b''], [b'h', b'h'], [b'h', b'H'], [b'h:80', b'h'], [b'h', b'h', b'h'], [b',', b'h'], [b'h', b','], [b'"', b'"'], [b'[::1', b']'], [b'h;a="', b'"']):
+		for line in (b'GET / HTTP/1.1', b'GET http://x:81/p HTTP/1.0'):
+			cases.append(wire(line, hosts, 0, 'P', expect=None if hosts[0].startswith(b'h;') else 'refuse', what='%d Host fields %r' % (len(hosts), hosts)))   # two fields that join into one quoted parameter: as 'h;a=b' (no statement)
+
+	# Q. the same request head written the way another sender would write it (class 6): field-name case, optional white space, continuation lines, LF line ends,
+	#    field order, neighbours that name other hosts; every escapable octet of a path escaped or not, in either hex case
+	n = 0
+	for t in RESPELL_TARGETS:
+		for what, f in RESPELL:
+			n += 1
+			hv = _rot(RESPELL_HOSTS, n)
+			line = _rot([b'GET', b'GET', b'HEAD', b'OPTIONS'], n) + b' ' + t + b' ' + _rot([b'HTTP/1.1', b'HTTP/1.1', b'HTTP/1.0'], n)
+			cases.append(wire(line, [hv], _rot([0, 1, 2], n), 'Q', raw=f(line, hv), what=what))
+	for hv in RESPELL_HOSTS:
+		for what, f in RESPELL:
+			n += 1
+			line = _rot([b'GET /a HTTP/1.1', b'GET http://x:81/p HTTP/1.1', b'CONNECT x:443 HTTP/1.1', b'GET /a HTTP/1.0'], n)
+			cases.append(wire(line, [hv], _rot([0, 1, 2], n), 'Q', raw=f(line, hv), what=what))
+	single = [c for c in older if len(c['hosts']) == 1 and len(c['line']) < 400]
+	for _ in range(2500 if big else 350):
+		c = rng.choice(single)
+		line, hv = bytes.fromhex(c['line']), bytes.fromhex(c['hosts'][0])
+		if not hv or b'\n' in hv or b'\r' in hv or hv != hv.strip(b' \t') or b'\n' in line or b'\r' in line:
+			continue   # a value with a line break or edge blanks (or none at all) has no other spelling that means the same
+		what, f = rng.choice(RESPELL)
+		cases.append(wire(line, [hv], c['cfg'], 'Q', raw=f(line, hv), what=what))
+	segs_pool = ['a', 'B', 'a.b', '~', '-._~', "!$&'()*+,;=", ':@', 'a b', '%', '%25', '%2e', '.a', 'a.', '...', '\u00e9', 'e\u0301', '\u212b', '\u00c5', '\U0001f600', '?', '#', '[]', '"<>', '\\', '^`{|}', '\x7f', '\x10', 'x' * 30]
+	for _ in range(1500 if big else 260):
+		segs = [rng.choice(segs_pool) for _ in range(rng.randint(1, 4))]
+		if rng.random() < 0.3:
+			segs.append('')
+		for style in range(3):
+			out = []
+			for sg in segs:
+				enc = b''
+				for b_ in sg.encode('utf-8'):
+					ch = bytes([b_])
+					literal_ok = ch.isalnum() or ch in b"-._~!$&'()*+,;=@"   # pchar without ':' -- a literal colon in the path of an origin-form target is refused (finding D49 of C04: URI.parse takes what precedes it for a scheme)
+					if literal_ok and (style == 0 or (style == 2 and rng.random() < 0.5)):
+						enc += ch
+					else:
+						enc += (b'%%%02X' if (style == 0 or (style == 2 and rng.random() < 0.5)) else b'%%%02x') % b_
+				out.append(enc)
+			n += 1
+			t = _rot([b'', b'', b'http://h', b'HTTPS://H:8443'], n) + b'/' + b'/'.join(out)
+			cases.append(wire(b'GET ' + t + b' ' + _rot([b'HTTP/1.1', b'HTTP/1.1', b'HTTP/1.0'], n), [_rot(HOST_GOOD, n)], _rot([0, 1, 2], n), 'Q', expect='deliver',
+				what='path %r spelled with %s' % ('/' + '/'.join(segs), ('as few escapes as possible', 'every octet escaped, lower-case hex', 'a random mix of literal octets and escapes in both hex cases')[style])))
 	return cases
 
 
@@ -670,7 +1129,7 @@ def read_host(raw):
 	return v, port
 
 
-def oracle(c, o):
+def _oracle_head(c, o):
 	if 'harness_exception' in o:
 		return 'harness exception %s' % (o['harness_exception'],)
 	if o['out'] == 'escape':
@@ -760,8 +1219,12 @@ def oracle(c, o):
 		return None
 	hp = read_host(bytes.fromhex(o['hostraw']))
 	if hp is None:
-		return None
-	if host.lower() != hp[0]:
+		hp = read_host_text(bytes.fromhex(o['hostraw']))
+		if hp is None:
+			return None
+		if host != hp[0]:
+			return 'host-text: delivered host %r (%s) is not, code point for code point, the lower-cased text %r (%s) of the Host field' % (host, _cps(host), hp[0], _cps(hp[0]))
+	elif host.lower() != hp[0]:
 		return 'host: delivered host %r, Host field says %r' % (host, hp[0])
 	if hp[1] == 0:
 		return 'host-port-zero: Host field gives port 0, delivered port %r' % (port,)
@@ -770,6 +1233,103 @@ def oracle(c, o):
 	if not 0 < port <= 65535:
 		return 'host: delivered port %r out of range' % (port,)
 	return None
+
+
+def _cps(t):
+	return ' '.join('U+%04X' % ord(ch) for ch in t[:24])
+
+
+ENCODED_WORD = re.compile(rb'^=\?utf-8\?([qb])\?([!-~]*?)\?=((?::[0-9]+)?)$', re.I)
+
+
+def read_host_text(raw):
+	"""independent reading of a Host value that carries text beyond ASCII: ONE RFC 2047 encoded word in UTF-8 (optionally followed by :port) or
+	ISO-8859-1 octets (RFC 7230 obs-text); (lower-cased text, port-or-None), None when the value is anything else.  Lower-casing is the only
+	change the comparison of host names allows: no normalisation form, no compatibility mapping"""
+	import base64
+	import binascii
+	m = ENCODED_WORD.match(raw)
+	if m:
+		kind, payload, port = m.group(1).lower(), m.group(2), m.group(3)
+		try:
+			if kind == b'q':
+				if re.search(rb'=(?![0-9A-Fa-f]{2})', payload) or b'?' in payload:
+					return None
+				data = re.sub(rb'=([0-9A-Fa-f]{2})', lambda mm: bytes([int(mm.group(1), 16)]), payload.replace(b'_', b' '))
+			else:
+				data = base64.b64decode(payload, validate=True)
+			text = data.decode('utf-8')
+		except (UnicodeDecodeError, binascii.Error, ValueError):
+			return None
+		port = int(port[1:]) if port else None
+	else:
+		if not raw or all(ch < 0x80 for ch in raw) or b'=?' in raw:
+			return None
+		text = raw.decode('latin-1')
+		port = None
+		h, sep, p = text.rpartition(':')
+		if sep and p and p.isascii() and p.isdigit():
+			text, port = h, int(p)
+	if not text or any(ch in text for ch in ':[];,"=?()\\ \t\r\n') or any(ord(ch) < 0x21 or ord(ch) == 0x7f for ch in text) or text.isascii():
+		return None
+	return text.lower(), port
+
+
+def _oracle_respelled(c, o):
+	"""clauses that only the cases of sections L-Q carry: the canonical spelling of the same request, the Host value on the wire, a stated expectation"""
+	if 'canon' in o and _sig(o) != o['canon']:
+		if not (c.get('lenient') and o['out'] == 'status' and o.get('code') == 400):
+			return 'respelling: %s gives %s, the same request head written canonically (one piece, "Host: value", CRLF) on a fresh machine gives %s' % (
+				c.get('what', 'this spelling'), _show_sig(_sig(o)), _show_sig(o['canon']))
+	if 'raw' in c and o.get('reached') and len(c['hosts']) == 1:
+		want = bytes.fromhex(c['hosts'][0]).strip(b' \t')
+		got = bytes.fromhex(o['hostraw']) if o['hostraw'] is not None else None
+		if got != want:
+			return 'host-field: the wire carries the Host value %r (%s), the machine read %r' % (want, c.get('what', ''), got)
+	exp = c.get('expect')
+	if exp == 'deliver' and o['out'] != 'deliver':
+		return 'refused: a well-formed request (%s) is not delivered: %s' % (c.get('what', ''), _show_sig(_sig(o)))
+	if exp == 'redirect' and not (o['out'] == 'status' and o.get('code') == 301):
+		return 'not-redirected: a well-formed request with a non-canonical path (%s) is not answered 301: %s' % (c.get('what', ''), _show_sig(_sig(o)))
+	if exp == 'refuse' and o['out'] == 'deliver':
+		return 'degenerate: %s is delivered: %s' % (c.get('what', ''), _show_sig(_sig(o)))
+	return None
+
+
+def _show_sig(g):
+	out, code, loc, uri = g[0], g[1], g[2], g[3]
+	if out == 'deliver':
+		u = [bytes.fromhex(x).decode('utf-8', 'replace') if isinstance(x, str) else x for x in uri]
+		return 'delivered %r' % (tuple(x if not isinstance(x, str) or len(x) < 80 else x[:40] + '...(%d)' % len(x) for x in u),)
+	if out == 'status':
+		return 'status %s%s' % (code, ' Location %r' % (bytes.fromhex(loc)[:80],) if loc else '')
+	return '%s %s' % (out, g[8] or '')
+
+
+def oracle(c, o):
+	if 'harness_exception' in o:
+		return 'harness exception %s' % (o['harness_exception'],)
+	if c['k'] == 'seq':
+		n = len(c['reqs'])
+		# 1. statefulness: every request of the sequence gives on the used machine what it gives alone on a fresh one
+		for i, (r, e) in enumerate(zip(c['reqs'], o['elems'])):
+			if e['out'] in ('lost', 'unreached'):
+				continue
+			if _sig(e) != o['fresh'][i]:
+				return 'stateful: request %d of %d sent to ONE machine (%s) %r gives %s, the same request alone on a fresh machine gives %s; before it: %s' % (
+					i + 1, n, c.get('mode'), bytes.fromhex(r['line']), _show_sig(_sig(e)), _show_sig(o['fresh'][i]), [bytes.fromhex(q['line']) for q in c['reqs'][:i]])
+		# 2. the property itself on every request the used machine delivered or refused
+		for i, (r, e) in enumerate(zip(c['reqs'], o['elems'])):
+			if e['out'] in ('lost', 'unreached'):
+				continue
+			f = _oracle_head(dict(r, k='head', cfg=c['cfg']), e)
+			if f:
+				return '%s [request %d of %d sent to one machine, %s]' % (f, i + 1, n, c.get('mode'))
+		return None
+	f = _oracle_head(c, o)
+	if f or c['k'] != 'head':
+		return f
+	return _oracle_respelled(c, o)
 
 
 def classify(c, o, failure):
@@ -787,13 +1347,15 @@ def classify(c, o, failure):
 def nontrivial(c, o):
 	if c['k'] == 'host':
 		return ('host', o['out'], c['v'])
+	if c['k'] == 'seq':
+		return ('seq', c.get('mode'), tuple((e.get('out'), e.get('code')) for e in o.get('elems', [])), tuple(r['line'] for r in c['reqs']), c['cfg'])
 	line = bytes.fromhex(c['line'])
 	m = REQLINE.match(line)
 	form = None
 	if m:
 		t = m.group(2)
 		form = 'authority' if m.group(1) == b'CONNECT' else ('absolute' if b'://' in t else ('asterisk' if t == b'*' else 'origin'))
-	return (o['out'], o.get('code'), form, line, o.get('hostraw'), c['cfg'])
+	return (o['out'], o.get('code'), form, line if len(line) < 200 else (len(line), line[:40]), o.get('hostraw'), c['cfg'], c.get('what'))
 
 
 LEVEL_TEXT = ('Machine-checked Coq theorems about a closed Gallina model of the request-target handling (Request.parse + validate_request_uri + '
